@@ -661,6 +661,15 @@ func (vc *VC) trCall(e *ECall, env *specEnv, c *Clause) sval {
 		}
 		key := vc.iscopyKey(x.typ)
 		return boolv(nestedSelect(env.st.get(key), []string{x.term, y.term}))
+	case "lockfree":
+		// lockfree(): this goroutine holds none of the mutexes the contracts track (said of blocking calls: whoever
+		// waits for a task, a group or a deduplicated execution while holding a lock stops everybody who needs it)
+		argN(0)
+		hk, _, ok := vc.ghostKey("held")
+		if !ok {
+			vc.specFail(c, "lockfree(): no lock set is declared")
+		}
+		return boolv(fmt.Sprintf("(= %s ((as const (Array Int Bool)) false))", env.st.get(hk)))
 	case "fresh":
 		argN(1)
 		x := vc.tr(e.Args[0], env, c)
